@@ -293,6 +293,7 @@ def make_grid_body(grid_names, backends, max_splits):
             study.add_trial(create_trial(value=0.0))
         done = 0
         splits = []
+        orphans = []
         for sp in range(max_splits):
             if done >= len(points) - 1:
                 break
@@ -301,12 +302,20 @@ def make_grid_body(grid_names, backends, max_splits):
             if k:
                 study.optimize(objective, n_trials=k, catch=(ValueError,))
                 done += k
+            if sp == 0 and sx.choose(2, "interrupted_mid_trial"):
+                # the run is interrupted INSIDE a trial: the trial has its grid id and parameters but is left RUNNING for good;
+                # its grid point has not been evaluated, the resumed run still owes it
+                t = study.ask()
+                for nme in names:
+                    t.suggest_categorical(nme, space[nme])
+                orphans.append(t.number)
+            if k or orphans:
                 study.sampler = new_sampler()
-        sx.note("scenario", dict(grid=gname, backend=kind, splits=splits, n_pre=n_pre))
-        study.optimize(objective, n_trials=len(points) + 2 - done, catch=(ValueError,))
+        sx.note("scenario", dict(grid=gname, backend=kind, splits=splits, n_pre=n_pre, orphans=list(orphans)))
+        study.optimize(objective, n_trials=len(points) + 3 - done, catch=(ValueError,))
         sx.reach("finished")
-        assert sorted(evaluated) == sorted(map(repr, points)), f"grid not visited exactly once: {sorted(evaluated)} vs {sorted(map(repr, points))}"
-        assert len(study.get_trials(deepcopy=False)) == len(points) + n_pre, "did not stop by itself"
+        assert sorted(evaluated) == sorted(map(repr, points)), f"grid not visited exactly once: {sorted(evaluated)} vs {sorted(map(repr, points))} (trials left RUNNING by an interrupted run: {orphans})"
+        assert len(study.get_trials(deepcopy=False)) == len(points) + n_pre + len(orphans), "did not stop by itself"
         return True
     return body
 
